@@ -53,6 +53,10 @@ TRUSTED = [
     'SpecFloat (Coq.Floats.SpecFloat) as the definition of binary64 arithmetic for the closed antipodal witness; its input '
     'literals are compared with numpy on every run',
     'oracle of the predicates: Vincenty formula in Python floats',
+    'vector-form Rodrigues rotation about the axis the doubles give (numpy) as reference in the two ill-conditioned zones '
+    'of rotate_spherical_vector',
+    'over R the range theorems follow from the totality of asin/acos/Rfmod: the clips / double np.mod of the three fixes are '
+    'held by K_ lemmas, corpus inputs and range predicates only',
 ]
 
 EPS = 2.0 ** -52
@@ -78,7 +82,7 @@ def sep_tol(ra1, d1, ra2, d2, psi):
     input differences are rounded (eps*|delta|), the haversine argument has a
     few eps of error, 2 asin sqrt x has derivative 1/sqrt(x(1-x))"""
     c = max(abs(math.cos(psi / 2.0)), 1e-9)
-    return 64 * EPS * max(psi, 0.0) + 8 * EPS * (abs(ra1 - ra2) + abs(d1 - d2) + abs(ra1) + abs(ra2)) + 16 * EPS / c
+    return 64 * EPS * max(psi, 0.0) + 8 * EPS * (abs(ra1 - ra2) + abs(d1 - d2) + abs(ra1) + abs(ra2)) + 6 * EPS / c
 
 
 def circ(a, b):
@@ -359,6 +363,19 @@ def corpus_cases():
                         'ra3': ra, 'dec3': dec})
             out.append({'f': 'rot', 'kind': 'corpus-tiny-neg-ra', 'ra1': ra, 'dec1': dec, 'ra2': ra + 1e-3, 'dec2': dec,
                         'ra3': -1e-3 - 1e-17 + ra * 0, 'dec3': 0.0})
+    # separations 4.6e-8 .. 6.3e-8 below pi: the haversine value is 5 .. 9 ulp below 1 (audit G/M5: snapping to pi)
+    for (a, b) in ((1.0, 0.5), (2.0, -0.3), (4.0, 0.1), (0.3, 1.0)):
+        for dlt in (4.8e-8, 5.2e-8, 5.6e-8, 6.0e-8):
+            out.append({'f': 'sep', 'kind': 'corpus-near-pi', 'ra1': a, 'dec1': b, 'ra2': a + PI, 'dec2': -b + dlt, 'floor': None})
+    # the two ill-conditioned zones of rotate_spherical_vector, deterministic (audit G/M4): exactly antipodal pairs with
+    # different noise norms, nearly antipodal and nearly identical pairs down to 1e-12
+    for (a, b) in ((0.0, 0.0), (1.0, 0.5), (2.0, -0.3), (0.3, 1.0), (4.0, 0.1), (5.5, -1.2), (3.0, 0.7), (0.7, -0.9)):
+        out.append({'f': 'rot', 'kind': 'corpus-antipodal-zone', 'ra1': a, 'dec1': b, 'ra2': a + PI, 'dec2': -b, 'ra3': a + 0.4, 'dec3': b * 0.5 + 0.2})
+        for off in (3e-8, 1e-9, 1e-12):
+            out.append({'f': 'rot', 'kind': 'corpus-antipodal-zone', 'ra1': a, 'dec1': b, 'ra2': a + PI, 'dec2': -b + off, 'ra3': a + 0.4,
+                        'dec3': b * 0.5 + 0.2})
+            out.append({'f': 'rot', 'kind': 'corpus-identity-zone', 'ra1': a, 'dec1': b, 'ra2': a, 'dec2': b + off, 'ra3': a + 0.4,
+                        'dec3': b * 0.5 + 0.2})
     # open finding: exactly antipodal true/source pair, reco = true should land on the source
     out.append({'f': 'rot', 'kind': 'corpus-antipodal', 'ra1': 1.0, 'dec1': 0.5, 'ra2': 1.0 + PI, 'dec2': -0.5,
                 'ra3': 1.0, 'dec3': 0.5})
@@ -498,6 +515,58 @@ def run_tdm(ctx, rng, lines, checks, n_groups):
             if abs(float(v) - ref) > sep_tol(c['src_ra'], c['src_dec'], c['ra'], c['dec'], want):
                 ctx.violation('tdm_field_func_psi', 'not-source-event-angle', f'psi={float(v)!r} angle={ref!r}', case=c,
                               impl=float(v), model=ref, predicate='psi == angle(source, event)')
+
+
+def run_signalpdf(ctx, rng, n_groups):
+    """GaussianPSFPointLikeSourceSignalSpatialPDF.calculate_pd on a stub TDM with K sources x N events and a sparse,
+    shuffled (source, event) index table: pd must be the Gaussian of the SOURCE-EVENT angle of each listed pair
+    (audit G/M1: np.take with the wrong index array)."""
+    from skyllh.core.signalpdf import GaussianPSFPointLikeSourceSignalSpatialPDF
+    from skyllh.core.config import Config
+    site = 'GaussianPSFPointLikeSourceSignalSpatialPDF.calculate_pd'
+    pdf = GaussianPSFPointLikeSourceSignalSpatialPDF(cfg=Config())
+    for g in range(n_groups):
+        if g == 0:
+            n_src, n_evt = 3, 5                       # deterministic first group: more events than sources
+            src = [(0.3, -0.4), (2.0, 0.9), (5.0, 0.1)]
+            evt = [(0.5, -0.2), (1.7, 1.0), (4.6, 0.3), (3.0, -1.0), (6.0, 0.6)]
+            sig = [0.3, 0.5, 0.8, 0.4, 0.6]
+            pairs = [(2, 0), (0, 4), (1, 1), (0, 0), (2, 3), (1, 4), (0, 2)]
+        else:
+            n_src, n_evt = rng.randint(1, 4), rng.randint(1, 7)
+            src = [(rng.uniform(0, TWOPI), rng.uniform(-1.3, 1.3)) for _ in range(n_src)]
+            evt = [(rng.uniform(0, TWOPI), rng.uniform(-1.3, 1.3)) for _ in range(n_evt)]
+            sig = [rng.uniform(0.2, 1.5) for _ in range(n_evt)]
+            pairs = [(s_, e_) for s_ in range(n_src) for e_ in range(n_evt) if rng.random() < 0.6] or [(0, 0)]
+            rng.shuffle(pairs)
+        tdm = StubTDM([e_[0] for e_ in evt], [e_[1] for e_ in evt], [s_[0] for s_ in src], [s_[1] for s_ in src],
+                      [p[0] for p in pairs], [p[1] for p in pairs])
+        tdm._d['ang_err'] = np.array(sig)
+        before = {k: v.tobytes() for k, v in tdm._d.items()}
+        case = {'f': 'signalpdf', 'src': src, 'evt': evt, 'ang_err': sig, 'pairs': pairs}
+        ctx.case(case)
+        ctx.count('signalpdf:groups')
+        try:
+            with np.errstate(all='ignore'):
+                pd = np.asarray(pdf.calculate_pd(tdm), dtype=np.float64)
+            assert pd.shape == (len(pairs),), pd.shape
+        except Exception as ex:
+            ctx.violation(site, 'raises-' + type(ex).__name__, str(ex)[:200], case=case, predicate='returns one pd per (source, event) pair')
+            continue
+        if {k: v.tobytes() for k, v in tdm._d.items()} != before:
+            ctx.violation(site, 'argument-modified', 'TDM data changed by calculate_pd', case=case, predicate='arguments are inputs')
+        for (s_, e_), v in zip(pairs, pd):
+            ctx.count('signalpdf:pairs')
+            psi = vincenty(src[s_][0], src[s_][1], evt[e_][0], evt[e_][1])
+            s2 = sig[e_] ** 2
+            want = 0.5 / (PI * s2) * math.exp(-0.5 * psi * psi / s2)
+            rel = 1e-12 + psi / s2 * sep_tol(src[s_][0], src[s_][1], evt[e_][0], evt[e_][1], psi)
+            if not abs(float(v) - want) <= rel * want:
+                ctx.violation(site, 'pd-not-gaussian-of-source-event-angle',
+                              f'pair (source {s_}, event {e_}): pd={float(v)!r}, expected {want!r} for psi={psi!r}, sigma={sig[e_]!r}',
+                              case=case, impl=float(v), model=want,
+                              predicate='pd = exp(-psi^2 / (2 sigma^2)) / (2 pi sigma^2), psi = angle(source, event)')
+                break
 
 
 def run_rot(ctx, cases, lines, checks):
@@ -785,10 +854,11 @@ def compare(ctx, checks, outs):
                 continue
             # conditioning of 2 asin sqrt x around the model's haversine value
             xm = x if x is not None else math.sin(m / 2.0) ** 2
-            dx = 16 * EPS * max(xm, 1e-300) + 16 * EPS * math.sin(min(abs(args[0] - args[2]) % TWOPI, 1.0) / 2) ** 2 * 0
-            dx = max(dx, 16 * EPS * xm)
-            lo = 2.0 * math.asin(math.sqrt(min(1.0, max(0.0, xm - dx - 4 * EPS * (xm > 0.25)))))
-            hi = 2.0 * math.asin(math.sqrt(min(1.0, max(0.0, xm + dx + 4 * EPS * (xm > 0.25)))))
+            # measured: implementation and float model agree to the last bit on 40000 near-antipodal pairs and to
+            # <= 2 ulp of the haversine value elsewhere; 6 eps relative (12 ulp at x ~ 1 are NOT allowed: 3 eps absolute)
+            dx = 6 * EPS * xm if xm < 0.25 else 3 * EPS
+            lo = 2.0 * math.asin(math.sqrt(min(1.0, max(0.0, xm - dx))))
+            hi = 2.0 * math.asin(math.sqrt(min(1.0, max(0.0, xm + dx))))
             fl = c.get('floor')
             if fl is not None:
                 lo, hi = max(lo, fl), max(hi, fl)
@@ -1303,6 +1373,7 @@ def execute(ctx, cases, rng, tdm_groups):
         run_sep(ctx, by['sep'], lines, checks)
     if tdm_groups:
         run_tdm(ctx, rng, lines, checks, tdm_groups)
+        run_signalpdf(ctx, rng, max(1, tdm_groups // 3))
     if by.get('rot'):
         run_rot(ctx, by['rot'], lines, checks)
     if by.get('rses'):
@@ -1414,6 +1485,9 @@ def replay(ctx, rp):
         ctx.notes.append('replay file has no concrete input (broken obligation): re-running the full check')
         return run(ctx)
     c = {k: v for k, v in c.items() if k not in ('impl', 'cond')}
+    if c['f'] == 'signalpdf':
+        ctx.sample({'f': 'signalpdf'})
+        return run_signalpdf(ctx, ctx.rng, 20)
     if c['f'] == 'history':
         ctx.sample(c)
         return run_history(ctx, int(c.get('seed', 0)))
